@@ -1333,11 +1333,22 @@ for _op in ('lt', 'le', 'gt', 'ge'):
             p, q = deref(a[0]), deref(a[1])
             if isinstance(p, Str) and isinstance(q, Str) and p.s is not None and q.s is not None:      # byte strings / texts: lexicographic on the bytes
                 x, y = raw_bytes(p), raw_bytes(q)
+            elif isinstance(p, Agg) and p.name == 'semver::Version' and isinstance(q, Agg) and q.name == 'semver::Version':
+                x, y = tuple(p.fields), tuple(q.fields)            # concrete (major, minor, patch)
             else:
                 x, y = _num_of(p), _num_of(q)
             return {'lt': x < y, 'le': x <= y, 'gt': x > y, 'ge': x >= y}[op]
         return f
     DEF_MODELS['std::cmp::PartialOrd::' + _op] = _mk_ord(_op)
+
+@model('<semver::Version as std::str::FromStr>::from_str', 'semver::Version::parse')
+def _semver_parse(it, a, c):
+    s = sval(a[0])
+    if s.s is None: raise Unsupported('semver parse of a symbolic string')
+    m = re.fullmatch(r'(0|[1-9][0-9]*)\.(0|[1-9][0-9]*)\.(0|[1-9][0-9]*)', s.s)
+    if not m: return ERR(Opaque('semver::Error'))          # pre-release / build metadata are not modelled: treated as unparsable (not used by the contracts)
+    return OK(Agg('semver::Version', [int(m.group(1)), int(m.group(2)), int(m.group(3))]))
+
 
 MODELS['std::slice::<impl [T]>::join'] = _join
 MODELS['std::slice::<impl [T]>::concat'] = _concat
